@@ -216,11 +216,14 @@ def main(tier):
     hists += list(r5.records)
     # runs that never reach their end (the caller abandons a next_* generator after its first line) among complete runs: the
     # next run, on the same or another instance, still gets its own directory under its own group
-    with open(os.path.join(spec, "_gen_RD_abandon.cfg"), "w") as f:
-        f.write(_cfg(["collect_paths", "next_paths" + ABANDON] + ([] if tier == "quick" else ["next_by_line" + ABANDON]), 3, emit=True, moves=("plus1",) if tier == "quick" else ("same", "plus1")))
-    r6 = require_ok(run_tlc("RunDirs", "_gen_RD_abandon.cfg", timeout=900, keep_stdout=False), "RunDirs abandon")
-    rep.add_tlc("RunDirs all histories of length 3 of complete and abandoned runs, one second apart (thorough: also within one second)", r6)
-    hists += list(r6.records)
+    fams = [(["collect_paths", "next_paths" + ABANDON], ("plus1",))] if tier == "quick" else \
+        [(["collect_paths", "next_paths" + ABANDON], ("same", "plus1")), (["collect_paths", "next_by_line" + ABANDON], ("plus1",))]
+    for ms, mvs in fams:
+        with open(os.path.join(spec, "_gen_RD_abandon.cfg"), "w") as f:
+            f.write(_cfg(ms, 3, emit=True, moves=mvs))
+        r6 = require_ok(run_tlc("RunDirs", "_gen_RD_abandon.cfg", timeout=900, keep_stdout=False), "RunDirs abandon")
+        rep.add_tlc(f"RunDirs all histories of length 3 of complete and abandoned runs ({ms[1]}; clock moves {', '.join(mvs)})", r6)
+        hists += list(r6.records)
     with open(os.path.join(spec, "_gen_RD_sim.cfg"), "w") as f:
         f.write(_cfg(["collect_paths", "collect_by_line", "next_paths", "next_by_line"], sim[1], emit=True))
     r3 = require_ok(run_tlc("RunDirs", "_gen_RD_sim.cfg", timeout=600, keep_stdout=False, workers=1,
